@@ -127,3 +127,51 @@ Lemma w_plain_ok : wf_history w_plain = true /\ no_guard w_plain = true /\
   m_answer (run w_plain) 1 "/b/x" = Some 10 /\ m_answer (run w_plain) 2 "/b/x" = Some 20 /\
   m_answer (run w_plain) 0 "/ab/zz" = Some 50 /\ m_answer (run w_plain) 0 "/abc" = None.
 Proof. vm_compute. repeat split; reflexivity. Qed.
+
+(** *** the tree as it is now (all three repairs) *)
+
+Lemma w_F1_now : wf_history w_F1 = true /\ guard_F1 w_F1 = true /\
+  m_answer (Model.run all_fix w_F1) 0 "/x" = Some 10 /\ m_answer (Spec.fresh all_fix (current w_F1)) 0 "/x" = Some 1.
+Proof. vm_compute. repeat split; reflexivity. Qed.
+
+Lemma w_F2_now : wf_history w_F2 = true /\ guard_F2 w_F2 = true /\
+  m_answer (Model.run all_fix w_F2) 0 "/y" = Some 20 /\ m_answer (Spec.fresh all_fix (current w_F2)) 0 "/y" = None.
+Proof. vm_compute. repeat split; reflexivity. Qed.
+
+(** duplicate ids after the repair of C06-F4: the update brings a second rule with
+    the id of an unchanged one; the diff takes the unchanged rule for changed when
+    deleting (it is SameAs the new twin, not EqualTo it) but for unchanged when
+    adding: it disappears *)
+Definition w_F6_now : list op :=
+  [Add 0 [mkd 0 0 false [] ["/p"]];
+   Update 0 [mkd 0 0 false [] ["/p"]; mkd 0 9 false [] ["/q"]]].
+
+Lemma w_F6_now_ok : wf_history w_F6_now = true /\ guard_dupid w_F6_now = true /\
+  m_answer (Model.run all_fix w_F6_now) 0 "/p" = None /\ m_answer (Spec.fresh all_fix (current w_F6_now)) 0 "/p" = Some 0.
+Proof. vm_compute. repeat split; reflexivity. Qed.
+
+(** a history in the territory of the repaired findings (node boundary in front of
+    ':', a path listed twice, renamed path parameter next to a kept node), with
+    updates and a deletion: the hypotheses of the theorems for the tree as it is
+    now hold *)
+Definition w_now : list op :=
+  [Add 0 [mkd 0 0 false [] ["/a:b"]; mkd 1 0 false [] ["/ax"]];
+   Update 0 [mkd 0 1 false [] ["/a:b"]; mkd 1 0 false [] ["/ax"]];
+   Add 1 [mkd 0 0 false [] ["/d"; "/d"]];
+   Update 1 [mkd 0 1 false [] ["/d"]];
+   Add 2 [mkd 0 0 false [] ["/k/:x"]];
+   Add 3 [mkd 0 0 false [] ["/k/:y/b"]];
+   Delete 2;
+   Add 2 [mkd 0 0 false [] ["/k/:z"]];
+   Delete 0].
+
+Lemma w_now_ok : wf_history w_now = true /\ open_guards w_now = false /\
+  guard_F3 w_now = true /\ guard_F4 w_now = true /\ guard_F5 w_now = true /\
+  length (current w_now) = 3 /\ length (index (Model.run all_fix w_now)) = 3 /\
+  m_answer (Model.run all_fix w_now) 0 "/d" = Some 1 /\ m_answer (Model.run all_fix w_now) 0 "/k/7" = Some 0 /\
+  m_answer (Model.run all_fix w_now) 0 "/a:b" = None.
+Proof. vm_compute. repeat split; reflexivity. Qed.
+
+Lemma w_plain_now : wf_history w_plain = true /\ open_guards w_plain = false /\
+  length (index (Model.run all_fix w_plain)) = 3 /\ m_answer (Model.run all_fix w_plain) 1 "/b/x" = Some 10.
+Proof. vm_compute. repeat split; reflexivity. Qed.
